@@ -186,6 +186,22 @@ def run(chk):
         else:
             chk.violation("C17.table", rwi, norm.raw(rwi.test), "headers.popall(hdrs.TRANSFER_ENCODING, None)",
                           "a caller-supplied `Transfer-Encoding: chunked` header survives the 301/302/303 rewrite to a body-less GET: the GET announces a chunked body that is never terminated and the target server's handler hangs")
+        # ... and so do the headers that described the body (RFC 9110 15.4: content-specific header fields)
+        dropped = set()
+        for c_ in [c_ for st_ in rwi.body for c_ in ast.walk(st_) if isinstance(c_, ast.Call) and isinstance(c_.func, ast.Attribute) and c_.func.attr in ("pop", "popall", "popone") and norm.raw(c_.func.value) == "headers" and c_.args]:
+            a0 = c_.args[0]
+            if isinstance(a0, ast.Attribute):
+                dropped.add(norm.raw(a0))
+            elif isinstance(a0, ast.Name):
+                for f_ in prog.enclosing(c_, (ast.For,)):
+                    if norm.raw(f_.target) == a0.id and isinstance(f_.iter, (ast.Tuple, ast.List, ast.Set)):
+                        dropped |= {norm.raw(e_) for e_ in f_.iter.elts}
+        want_h = {"hdrs.CONTENT_TYPE", "hdrs.CONTENT_ENCODING"}
+        if want_h <= dropped:
+            chk.ok("C17.table", rwi, f"rewrite branch: the headers describing the dropped body go with it ({', '.join(sorted(dropped - {'hdrs.CONTENT_LENGTH', 'hdrs.TRANSFER_ENCODING', 'hdrs.EXPECT'}))})")
+        else:
+            chk.violation("C17.table", rwi, norm.raw(rwi.test), "headers.popall(<Content-Type, Content-Encoding, ...>, None)",
+                          f"a caller-supplied {', '.join(sorted(h.replace('hdrs.', '') for h in want_h - dropped))} header survives the 301/302/303 rewrite: the body-less GET to the redirect target claims `Content-Type: application/json` / `Content-Encoding: gzip` for content that was dropped (RFC 9110 15.4 says to remove them)")
         # the expectation goes with the body it announced
         if "expect100 = False" in body and "hdrs.EXPECT" in body:
             chk.ok("C17.table", rwi, "rewrite branch: Expect: 100-continue is dropped together with the body")
@@ -233,6 +249,7 @@ def run(chk):
         else:
             chk.violation("C17.entry", u, K.short(u, 70), f"{tname}.port inside the try", "with requote_redirect_url=False the Location is parsed with encoded=True, which defers netloc validation: `Location: http://b.test:abc/` passes every guard and the next hop raises a bare ValueError (not a ClientError) from server-controlled input")
     hunt2_rules(chk, repo, rq, red)
+    hunt3_rules(chk, repo, rq, red)
     inc = [s for s in ast.walk(red) if isinstance(s, ast.AugAssign) and norm.raw(s) == "redirects += 1"]
     if inc and tm and inc[0].lineno < tm[0].lineno:
         chk.ok("C17.limit", inc[0], "the counter is incremented before it is compared (at most max_redirects requests)")
@@ -264,6 +281,10 @@ def run(chk):
             blk = PC._block_of(n)
             prior = blk[: blk.index(n)]
             if isinstance(n, ast.Raise):
+                # a raise that a handler of the same function catches is no exit (the handler's own raise is looked at)
+                cls_ = K.raise_class(n)
+                if cls_ and any(prog.in_body_of(n, t_, "body") and cls_ in PC.handler_types(h_) for t_, h_ in K.enclosing_try_handlers(n)):
+                    continue
                 nr += 1
                 if any(M.contains(p, "resp.close()") for p in prior):
                     chk.ok("C17.release", n, f"redirect error exit `{K.short(n, 40)}` closes the intermediate response")
@@ -276,6 +297,62 @@ def run(chk):
                 else:
                     chk.violation("C17.release", n, "continue", "resp.release()", "the intermediate response is not released before the next hop")
     chk.expect_count("C17.release", nr, 5, "raise sites in the redirect branch")
+
+
+def hunt3_rules(chk, repo, rq, red):
+    """Rules written after the third defect hunt (F200-F202)."""
+    import re as _re
+    folder = Folder(repo)
+    mod = repo.module(CLIENT)
+    # ---- C17.history: the final response knows its redirect chain whichever way _request() ends ---------------------------------------------------
+    g = cfg_of(rq.node)
+    hist = K.nodes_matching(rq, "resp._history = tuple(history)")
+    rfs = [n for n in g.nodes if K.node_has(n, "resp.raise_for_status()") or K.node_has(n, "raise_for_status(resp)")]
+    if not hist or not rfs:
+        chk.analysis_error("C17.history: `resp._history = tuple(history)` / the raise_for_status calls were not found in _request()")
+    else:
+        p = g.find_path([g.entry], lambda n: n in rfs, lambda n: n in hist, EXPLICIT)
+        if p is None:
+            chk.ok("C17.history", hist[0].ast, "the redirect history is recorded on the response before raise_for_status can end the request with it")
+        else:
+            chk.violation("C17.history", rfs[0].ast, K.short(rfs[0].ast), "resp._history = tuple(history) before the status check",
+                          "with raise_for_status the error for the final response is raised before its history is set: ClientResponseError.history and the response handed to a raise_for_status callback say `no redirects` for a request that followed some", path=g.fmt_path(p))
+    hp = repo.cls("aiohttp/client_reqrep.py", "ClientResponse").methods.get("history")
+    decos = [norm.raw(d) for d in hp.node.decorator_list] if hp is not None else []
+    if hp is None:
+        chk.analysis_error("C17.history: ClientResponse.history not found")
+    elif "reify" in decos:
+        chk.violation("C17.history", hp, "@reify def history", "@property", "ClientResponse.history is cached at first access: read before _request() has recorded the chain (trace callbacks, raise_for_status callback) it answers `()` for good")
+    else:
+        chk.ok("C17.history", hp, "ClientResponse.history is read from _history each time (not cached before it is set)")
+    # ---- C17.entry: a Location that is taken as it is must fit in a request line -----------------------------------------------------------------------
+    urls = [s_ for s_ in ast.walk(red) if isinstance(s_, ast.Assign) and isinstance(s_.value, ast.Call) and norm.raw(s_.value.func) == "URL" and any(k.arg == "encoded" for k in s_.value.keywords)]
+    for u in urls:
+        src = norm.raw(u.value.args[0]) if u.value.args else ""
+        tr = next((t for t in prog.enclosing(u, (ast.Try,)) if prog.in_body_of(u, t, "body") and any("ValueError" in PC.handler_types(h) for h in t.handlers)), None)
+        gate = None
+        for r_, _c in (K.raises_in(ast.Module(body=tr.body, type_ignores=[])) if tr is not None else []):
+            if r_.lineno > u.lineno:
+                continue
+            b = PC.has_lit(PC.pc(r_, stop=tr, raw=True), f"$R.search({src})", True)
+            if b is not None:
+                gate = (r_, b["R"])
+        if gate is None:
+            chk.violation("C17.entry", u, K.short(u, 70), f"if not self._requote_redirect_url and <CTL pattern>.search({src}): raise ValueError",
+                          "with requote_redirect_url=False the Location is used verbatim (encoded=True): a value with CR / LF / NUL passes URL() and fails only when the next hop's request line is written - ValueError out of session.get() instead of InvalidUrlRedirectClientError, with the intermediate response already released")
+            continue
+        try:
+            rx = folder.eval(mod, gate[1])
+            cre = _re.compile(rx.pattern, rx.flags)
+            missed = [repr(w) for w in ("\r", "\n", "\x00", "\x7f", "\t") if not cre.search("/a" + w + "b")]
+            over = [w for w in ("/a/b?x=1#f", "http://h/%0d") if cre.search(w)]
+        except (NotConst, AttributeError, TypeError) as e:
+            chk.analysis_error(f"C17.entry: cannot fold the control-character pattern `{norm.raw(gate[1])}`: {e}")
+            continue
+        if not missed and not over:
+            chk.ok("C17.entry", gate[0], f"a verbatim Location with a control character is refused inside the ValueError guard (`{rx.pattern}`)")
+        else:
+            chk.violation("C17.entry", gate[0], f"{norm.raw(gate[1])} = {rx.pattern!r}", f"refuse {missed}; accept {over}", "the control-character gate of a verbatim Location does not cover CTLs / refuses plain URLs")
 
 
 def hunt2_rules(chk, repo, rq, red):
